@@ -13,8 +13,9 @@ import Tickit.Gen.LineChars
     requests seen so far); with `viaWriteStr` the print request goes through `write_str` of src/term.c as the
     xterm driver's does (`len == 0` means "use strlen").
 
-  Conventions as in Model/RB.lean (C `int` = `Int`; the grid is a total function, the terminal an unbounded
-  plane of which the harness shows the window `[0,lines) × [0,cols)`: no autowrap, no clamping).
+  Conventions as in Model/RB.lean (C `int` = `Int`; the grid is a total function, the terminal a plane `cols` columns
+  wide with the VT behaviour at the right edge, unbounded downwards, of which the harness shows the window
+  `[0,lines) × [0,cols)`; `stepL`/`runL` interpret the requests on a screen of `L` lines).
   No Mathlib: this file is linked into the driver executable.
 -/
 namespace Tickit.RBFlush
@@ -767,5 +768,11 @@ def flushWFPb (okb : Int → Bool) (rb : RB) : Bool :=
   (List.range rb.lines.toNat).all fun l => tiledB okb rb (l : Int) rb.cols.toNat 0
 
 def flushWFb (rb : RB) : Bool := flushWFPb charOKb rb
+
+/-- The hypothesis of `flush_spec_screen` in decidable form (evaluated by the driver on every flush): no cell of the
+    buffer outside a screen of `W` columns and `L` lines is owed anything. -/
+def contentWithinB (rb : RB) (W L : Int) : Bool :=
+  (List.range rb.lines.toNat).all fun l => (List.range rb.cols.toNat).all fun c =>
+    (decide ((l : Int) < L) && decide ((c : Int) < W)) || want rb (l : Int) (c : Int) == .keep
 
 end Tickit.RBFlush
